@@ -303,4 +303,34 @@ theorem canonicalize_same_resource (puny : Str → Str) (hpl : PunyLaws puny) (h
     have := (canon_fragment puny o.quoted p).2
     simp only [reparsedOf, reparsed, hsf, this, Option.getD_none]
 
+/-- **the host clause on the output string, as the property words it**: the string
+`canonicalize_url` returns parses, and the host of THAT parse is the host of the cleaned
+input up to letter case and IDNA spelling — label by label the same ASCII-compatible spelling
+(`hostKey ace`) — for every decoder that obeys `PunyLaws`, `PunyClean` and keeps the name
+of the `xn--` labels of the input host (`SameNameOn`, evaluated on the real decoder for every
+case of every run). -/
+theorem canonicalize_same_host_name (ace puny : Str → Str) (hpl : PunyLaws puny)
+    (hpc : PunyClean puny) (hl : ∀ l, ace (Py.lower l) = ace l)
+    (o : Opts) (hdp : DefaultProtocolOk o.defaultProtocol) (u : Str) (p : Parsed)
+    (ha : Accepted u o.defaultProtocol p)
+    (hs : ∀ h, p.hostname = some h → SameNameOn ace puny h) :
+    ∃ s p', canonicalizeUrl puny o u = some s ∧ parseUrl s = some p' ∧
+      hostKey ace (p'.hostname.getD []) = hostKey ace (p.hostname.getD []) := by
+  obtain ⟨s, hs', hps⟩ := canonicalize_reparse puny hpc o hdp u p ha
+  refine ⟨s, _, hs', hps, ?_⟩
+  have e : (reparsedOf puny o.quoted o.stripFragment p).hostname.getD [] =
+      (canonComps puny o.quoted o.stripFragment p).host.getD [] := by
+    simp only [reparsedOf, reparsed]
+    split
+    · rename_i h0; simp [← strOf_eq_getD, h0]
+    · simp [strOf_eq_getD]
+  rw [e]
+  simp only [canonComps]
+  cases hh : p.hostname with
+  | none => rfl
+  | some h =>
+    by_cases he : h.isEmpty
+    · simp [he]
+    · simp [he, hostKey_canonHost ace puny hpl hl h (hs h hh)]
+
 end Ural.Props.C01
